@@ -1,4 +1,4 @@
-import LyModel.Valid.FullLevel
+import LyModel.Valid.FullUB
 /-!
 # C02, full schema language: completeness of one sibling level
 
@@ -151,7 +151,7 @@ def CplAt (X : SchemaX) (o : VOpts) (fuel : Nat) : Prop :=
 
 structure CplLv (X : SchemaX) (o : VOpts) (fuel : Nat) (sk : List STree) (ks : List DNode) (cx1 cx2 cx3 cxF : Cx) : Prop where
   hop : o.operational = false
-  hu : X.uniques = []
+  hU : UniqBridge X o
   hq : X.q.implicitInnerCase = false
   hl : KidsLookupOk X
   hio : InfoOk X
@@ -191,7 +191,7 @@ theorem cpl_card {K : EKind} (hK : K ∈ cardL o (explicitL ks) sk) : pipeErrs X
     cpl_dupCase C ((dupCaseL_iff_card o (explicitL ks) sk C.hls.kinds C.hls.noCase).2 h)
   by_cases hne : K = .dupCase
   · subst hne; exact hdc hK
-  · rcases level_complete X o cxF C.hop C.hu F.cnt fuel sk C.hh C.hls.kinds C.hls.nodup C.hls.sane F.sel K hK hne with h | h
+  · rcases level_complete X o cxF C.hop F.cnt fuel sk C.hh C.hls.kinds C.hls.nodup C.hls.sane F.sel K hK hne with h | h
     · apply cpl_pipe_level
       unfold levelChecks
       rw [C.hkF, Out.append_errs]
@@ -359,7 +359,7 @@ theorem cpl_list (IH : ∀ f, fuel = f + 1 → CplAt X o f) {s : Nat} {i : SNode
     buildL X.base ks ≠ none ∨ pipeErrs X o fuel cx1 cx2 cx3 cxF sk ks ≠ [] := by
   have hi : InfoFacts X.base (.mk s i kk) := infoFacts_of_get _ _ (C.hio _ (C.hb _ hr.belowL))
   rw [specNode_list_mem X o _ _ hkind] at hK
-  rcases hK with ⟨_, hst, hne⟩ | ⟨_, hnk⟩ | ⟨_, hc, hpw⟩ | hm | hm | ⟨_, _, hun⟩ | ⟨e, he, hKe⟩
+  rcases hK with ⟨_, hst, hne⟩ | ⟨_, hnk⟩ | ⟨_, hc, hpw⟩ | hm | hm | ⟨_, hstu, hun⟩ | ⟨e, he, hKe⟩
   · exact Or.inr (cpl_unexp C hi hst hne)
   · left
     obtain ⟨e, hne⟩ := Classical.not_forall.1 hnk
@@ -375,11 +375,18 @@ theorem cpl_list (IH : ∀ f, fuel = f + 1 → CplAt X o f) {s : Nat} {i : SNode
   · exact Or.inr (cpl_V C (Or.inl (dup_complete_list X hi (cpl_fresh C) hkind hc hpw)))
   · exact Or.inr (cpl_card_node C hr ((cardNode_list_mem o _ K hkind).2 (Or.inl hm)))
   · exact Or.inr (cpl_card_node C hr ((cardNode_list_mem o _ K hkind).2 (Or.inr hm)))
-  · exfalso
-    apply hun
-    rw [cpl_uniques_nil C.hu s]
-    intro u hu'
-    cases hu'
+  · right
+    have F := cpl_facts C
+    have hne := (C.hU fuel sk ks cx1 cx2 cx3 cxF C.hh C.hb C.hls C.hg C.hlen s i kk hr.belowL hkind).2 hun
+    have hcfg : ∀ ch k', BelowL ch sk → Below k' ch → ch.info.config = false → k'.info.config = false :=
+      fun ch k' hb hb' => C.hs.cfg ch k' (C.hb ch hb) hb'
+    rcases level_complete_uniq X o cxF fuel sk C.hh C.hls.kinds C.hls.nodup C.hls.sane F.sel hcfg (.mk s i kk) hr hkind hstu hne with h | h
+    · apply cpl_pipe_level
+      unfold levelChecks
+      rw [C.hkF, Out.append_errs]
+      intro h0
+      exact h (List.append_eq_nil_iff.1 h0).2
+    · exact cpl_dupCase C ((dupCaseL_iff_card o (explicitL ks) sk C.hls.kinds C.hls.noCase).2 h)
   · obtain ⟨y, hy, hys, hgy, rfl⟩ := cpl_inst_of C.hg he
     exact cpl_rec_expl C IH hr.belowL (Or.inr hkind) hy hys hgy hKe
 
@@ -479,7 +486,7 @@ end level
 
 /-- **completeness of one sibling level and everything below**: a violated constraint of the specification on the explicit data
 of a freshly built sibling list means the instance cannot be built, or `lyd_validate` logs an error for the level or below -/
-theorem level_main_complete (X : SchemaX) (o : VOpts) (hop : o.operational = false) (hu : X.uniques = [])
+theorem level_main_complete (X : SchemaX) (o : VOpts) (hop : o.operational = false) (hU : UniqBridge X o)
     (hq : X.q.implicitInnerCase = false) (hl : KidsLookupOk X) (hio : InfoOk X) (hs : FullSane X o) :
     ∀ (fuel : Nat) (sk : List STree) (ks : List DNode) (cx1 cx2 cx3 cxF : Cx),
       sheightL sk ≤ fuel → (∀ k, BelowL k sk → BelowL k X.top) → LevelSane sk → X.kidsOf cx1.parent = sk → X.kidsOf cxF.parent = sk →
@@ -489,10 +496,10 @@ theorem level_main_complete (X : SchemaX) (o : VOpts) (hop : o.operational = fal
   induction fuel with
   | zero =>
     intro sk ks cx1 cx2 cx3 cxF hh hb hls hk1 hkF hg hlen K hK
-    exact cpl_step ⟨hop, hu, hq, hl, hio, hs, hh, hb, hls, hk1, hkF, hg, hlen⟩ (fun f hf => by omega) hK
+    exact cpl_step ⟨hop, hU, hq, hl, hio, hs, hh, hb, hls, hk1, hkF, hg, hlen⟩ (fun f hf => by omega) hK
   | succ n ih =>
     intro sk ks cx1 cx2 cx3 cxF hh hb hls hk1 hkF hg hlen K hK
-    exact cpl_step ⟨hop, hu, hq, hl, hio, hs, hh, hb, hls, hk1, hkF, hg, hlen⟩
+    exact cpl_step ⟨hop, hU, hq, hl, hio, hs, hh, hb, hls, hk1, hkF, hg, hlen⟩
       (fun f hf => by
         have : f = n := by omega
         subst this
